@@ -363,6 +363,7 @@ def C05():
 
 def C07():
     from contracts.processor import PaginationBorders
+    from contracts.replay_docs import replayer as D
     from contracts.headers import RenderColumnHeaders
     from contracts.attributes import UpdateCell, UpdateRow, ToList, Iloc, LEMMAS
     from contracts.emitters import CellAsRtf, BorderAsRtf
@@ -379,7 +380,8 @@ def C07():
                      "looks only at header 0); multi-section "
                      "documents: first / last page border only on the first / last section (unit MultiSection); the component override computed by the processor (_apply_footnote_source_borders) reaches the "
                      "footnote/source emitters through render (unit RenderPage) and is applied on a copy (units EncodeFootnote/EncodeSource)"],
-        replayers={}, design_ref="4/C07")
+        replayers={"pagination/processor.py::": D("borders"), "encoding/renderer.py::PageRenderer._render_column_headers": D("borders"),
+                   "services/encoding_service.py::": D("borders"), "encoding/unified_encoder.py::": D("borders")}, design_ref="4/C07")
 
 
 def C09():
